@@ -16,6 +16,13 @@ func init() { register("C12", "exploration", c12Main, c12Replay) }
 
 var c12Opts = []*pql.CompileOptions{nil, {}, {Parameters: map[string]string{"a": "$1", "T": "$2", "x": "{x:Int32}"}}}
 
+// c12OddOpts: parameter snippets are arbitrary caller text; none may make Compile panic or hang.
+var c12OddOpts = []*pql.CompileOptions{
+	{Parameters: map[string]string{"a": "", "T": " ", "x": "-", "b": "", "k": "", "n": ""}},
+	{Parameters: map[string]string{"a": "--", "T": "'", "x": "(", "b": "\x00", "k": "é\xff", "n": ")"}},
+	{Parameters: map[string]string{"a": strings.Repeat("z", 5000), "x": "+", "b": "-1", "n": "1e400"}},
+}
+
 // totalOne runs every entry point on src; panics are recorded by Try, hangs by the watchdog.
 func totalOne(w *run.Worker, src string) {
 	w.Begin("totality", src)
@@ -32,6 +39,9 @@ func totalOne(w *run.Worker, src string) {
 			}
 		}
 		for _, o := range c12Opts {
+			o.Compile(src)
+		}
+		for _, o := range c12OddOpts {
 			o.Compile(src)
 		}
 	})
@@ -56,7 +66,7 @@ func totalEach(w *run.Worker, src string) {
 			}
 		})
 	}
-	for _, o := range c12Opts {
+	for _, o := range append(append([]*pql.CompileOptions{}, c12Opts...), c12OddOpts...) {
 		w.Begin("totality:Compile", src)
 		w.Try(src, func() { o.Compile(src) })
 	}
@@ -289,6 +299,29 @@ func c12Main(r *run.Runner) {
 	})
 	r.MaxWorkers = 0
 	r.HangLimit.Store(0)
+	// odd tokens where a diagnostic quotes them: long / unterminated / ending in partial or stray UTF-8 sequences
+	type odd struct {
+		n, m int
+		tail string
+	}
+	var odds []odd
+	for _, n := range []int{0, 1, 30, 33, 34, 35, 60, 62, 63, 64, 65, 66, 100, 127, 128, 129, 255, 256, 257, 1000} {
+		for _, m := range []int{1, 2, 3, 4, 29, 30, 31, 32, 33, 63, 64, 65, 128} {
+			for _, tail := range []string{"\x80", "\xbf", "\xc2", "\xe2\x80", "\xf0\x9f", "\xff", "é", "\u2028", "\U0001F600", "%", "\\", "\x00", "\n"} {
+				odds = append(odds, odd{n, m, tail})
+			}
+		}
+	}
+	oddCtx := []string{"%s", "T | %s", "T | where a == %s", "T | where a == 1 %s", "T | take %s", "T | join kind=%s (R) on k", "let %s = 1; T", "T | where f(%s", "T | project %s = 1", "T | render %s", "T | sort by a %s", "T | as %s", "T | where a in (1, %s"}
+	r.Sweep("odd-tokens", int64(len(odds)), func(w *run.Worker, item int64) {
+		o := odds[item]
+		body := strings.Repeat("a", o.n) + strings.Repeat(o.tail, o.m)
+		for _, shape := range []string{"'" + body, "`" + body, "\"" + body, "'" + body + "'", "`" + body + "`", body, "1" + body, "//" + body, "0x" + body} {
+			for _, c := range oddCtx {
+				totalOne(w, strings.Replace(c, "%s", shape, 1))
+			}
+		}
+	})
 	r.Sweep("bytes36", e.Items(), func(w *run.Worker, item int64) {
 		e.Do(item, func(buf []byte, _ []int) bool {
 			totalOne(w, string(buf))
